@@ -360,7 +360,7 @@ fn fnv(h: u64, x: u64) -> u64 {
     (h ^ x).wrapping_mul(1099511628211)
 }
 
-fn op_cutall(m: &Message) -> String {
+fn op_cutall(m: &Message, step: usize) -> String {
     let r = guard(|| {
         let bs = m.as_bytes();
         let w = m.storage_header.is_some();
@@ -369,6 +369,9 @@ fn op_cutall(m: &Message) -> String {
         let mut nbad = 0usize;
         let mut h: u64 = 14695981039346656037;
         for k in 0..n {
+            if !(step == 1 || k < 64 || k + 64 >= n || k % step == 0) {
+                continue;
+            }
             let pre = &bs[..k];
             let r = guard(|| dlt_message(pre, None, w));
             let (ok_msg, cls, hv) = match &r {
@@ -519,7 +522,7 @@ pub fn p_message_config(c: &MessageConfig) -> String {
     )
 }
 
-fn op_new(c: MessageConfig, sh: Option<StorageHeader>) -> String {
+fn op_new(c: MessageConfig, sh: Option<StorageHeader>, require_rt: bool) -> String {
     let r = guard(|| {
         let m = Message::new(c, sh);
         let e = m.header.endianness;
@@ -544,7 +547,7 @@ fn op_new(c: MessageConfig, sh: Option<StorageHeader>) -> String {
                 p_bool(blen_ok),
                 p_bool(back)
             ),
-            plen_ok && blen_ok && back,
+            plen_ok && blen_ok && (back || !require_rt),
         )
     });
     match r {
@@ -698,7 +701,12 @@ pub fn dispatch(op: &str, t: &mut Toks) -> R<String> {
         }
         "SKIPSH" => op_skipsh(&t.bytes()?),
         "FWD" => op_fwd(&t.bytes()?),
-        "CUTALL" => op_cutall(&t.message()?),
+        "CUTALL" => op_cutall(&t.message()?, 1),
+        // the same for long messages: the first and last 64 cuts and every `step`-th in between
+        "CUTS" => {
+            let step: usize = t.num()?;
+            op_cutall(&t.message()?, step.max(1))
+        }
         "JUNK" => {
             let j = t.bytes()?;
             let m = t.message()?;
@@ -721,6 +729,38 @@ pub fn dispatch(op: &str, t: &mut Toks) -> R<String> {
                 (format!("same={} {}", p_bool(same), p_class(&ra)), same)
             }) {
                 Some((s, ok)) => format!("{}{}", s, oracle(ok, "junk in front of the pattern changes the parse")),
+                None => format!("PANIC{}", oracle(false, "panic")),
+            }
+        }
+        // the same with a filter: the result (item / filtered out) and the remainder must not depend
+        // on the junk in front
+        "JUNKF" => {
+            let f = t.opt(|t| t.filter())?;
+            let j = t.bytes()?;
+            let m = t.message()?;
+            let sfx = t.bytes()?;
+            let pf = processed(&f, j.len() % 2 == 0);
+            match guard(|| {
+                let enc = m.as_bytes();
+                let mut a = j.clone();
+                a.extend_from_slice(&enc);
+                a.extend_from_slice(&sfx);
+                let mut b = enc.clone();
+                b.extend_from_slice(&sfx);
+                let ra = dlt_message(&a, pf.as_ref(), true);
+                let rb = dlt_message(&b, pf.as_ref(), true);
+                let same = match (&ra, &rb) {
+                    (Ok((r1, ParsedMessage::Item(m1))), Ok((r2, ParsedMessage::Item(m2)))) => {
+                        same_msg(m1, m2) && r1 == r2 && same_msg(m1, &m) && *r1 == &sfx[..]
+                    }
+                    (Ok((r1, ParsedMessage::FilteredOut(n1))), Ok((r2, ParsedMessage::FilteredOut(n2)))) => {
+                        n1 == n2 && r1 == r2 && *r1 == &sfx[..]
+                    }
+                    _ => false,
+                };
+                (format!("same={} {}", p_bool(same), p_class(&ra)), same)
+            }) {
+                Some((s, ok)) => format!("{}{}", s, oracle(ok, "junk in front of the pattern changes the filtered parse")),
                 None => format!("PANIC{}", oracle(false, "panic")),
             }
         }
@@ -781,7 +821,14 @@ pub fn dispatch(op: &str, t: &mut Toks) -> R<String> {
         "NEW" => {
             let c = message_config(t)?;
             let sh = t.opt(|t| t.storage_header())?;
-            op_new(c, sh)
+            op_new(c, sh, true)
+        }
+        // a configuration whose verbose arguments need not be well-typed: the recorded lengths must
+        // still equal the serialised ones (parsing back to an equal message is not demanded)
+        "NEWX" => {
+            let c = message_config(t)?;
+            let sh = t.opt(|t| t.storage_header())?;
+            op_new(c, sh, false)
         }
         "ADDSH" => {
             let m = t.message()?;
